@@ -362,6 +362,11 @@ add("C18", "fixed", "output-differs:widget", "a template with its own extends ta
         "leaf": {"extends": "base", "items": [["block", "a", False, [["widget", "widget2"], ["text", "a2"]], None], ["block", "b", False, [["text", "b2"]], None]]},
         "base": {"extends": None, "items": [["block", "a", False, [["text", "A"]], None], ["block", "b", False, [["text", "B"]], None]]}}}], "ce68498")
 
+# ----------------------------------------------------------------------------- C09 fixed in round 4 (first reported by an independent sub-agent)
+add("C09", "fixed", "parse-cpu-time:tag:<noname>", "the template lexer backtracked catastrophically on an unclosed {% or {{ followed by a long run of whitespace (time ~ n^3 to n^4: 5 s for 300 spaces after {%, 18 s for 2000 after {{): "
+    "one regex call, so invisible to the step clock and caught by the CPU guard",
+    [{"kind": "parse", "source": "{%" + " " * 2000, "mode": "strict"}, {"kind": "parse", "source": "{{" + " " * 2000, "mode": "lax"}, {"kind": "parse", "source": "{% if" + "\t " * 1000, "mode": "strict"}], "6484fd9")
+
 if __name__ == "__main__":
     # further entries are appended by tools/mkfindings.py from triaged replay files and kept in findings_extra.json
     extra_path = os.path.join(VERIF, "tools", "findings_extra.json")
